@@ -14,5 +14,6 @@ run() { # patch, props...
 run rewrite_pure_helpers.patch C07 C11 C14 C16 C19
 run rewrite_io_loops.patch C03 C15 C11
 run rewrite_stream_packet.patch C04 C03
+run rewrite_filesync_send.patch C07
 ./check.sh C02 --gen > /dev/null
 exit $rc
